@@ -24,7 +24,15 @@ the same (container shape, reference position, output, amd) under distinct names
 model's prediction into an ok-pack and an error-pack (names a linker error message mentions are
 "error", they are removed and the pack is linked again).  The packing is validated by running the
 reference linker unpacked on a sub-family (all members with <= 1 provider in the quick tier, <= 2
-in the thorough tier) and comparing verdicts."""
+in the thorough tier) and comparing verdicts.
+
+Second axis, "multiref" (see the section of that name below): SEVERAL referencing objects (2;
+thorough: up to 3) of the same name, each with its own reference kind, its own position among the
+providers and the other referencing objects, its own slot, and (exe / -pie) its referencing section
+live or discarded by --gc-sections; crossed with the provider sequences (quick: none or one
+provider of each kind; thorough: also two) and the outputs.  Same two oracles (the model applies
+"undefined non-weak = error, undefined weak = zero" to every live reference), same packing; every
+slot is judged separately; violation keys start with `multiref:`."""
 import itertools
 import json
 import os
@@ -36,6 +44,8 @@ import time
 sys.path.insert(0, os.path.join(os.path.dirname(os.path.abspath(__file__)), "..", "lib"))
 import vlib
 import symfam
+from elfgen import (ElfObject, SHF_ALLOC, SHF_WRITE, SHF_EXECINSTR, STB_GLOBAL, STB_WEAK, STT_OBJECT,
+                    STT_FUNC, STV_DEFAULT, STV_HIDDEN)
 
 KINDS = ["S", "W", "C4", "C16", "U", "H", "P", "G", "AL", "AW", "DS", "DW"]
 CONT = {k: "O" for k in KINDS[:8]}
@@ -69,8 +79,9 @@ READINGS = list(itertools.product(("literal", "firstdef", "firstdef_all"), ("eit
                                   ("weak", "strong"), ("bind", "err")))
 
 
-def model_one(seq, ref, out, amd, al, comdat, uniq, hidden):
-    nonweak = ref != "weak"
+def resolve_defs(seq, nonweak, amd, al, comdat, uniq):
+    """The definition among objects / archive members the name resolves to: ("def", position),
+    ("err",) for a duplicate-definition error, None when no object or member defines it."""
     defs = []                                    # (position, class, in_comdat) of object definitions
     for i, k in enumerate(seq):
         if k in ("DS", "DW"):
@@ -97,6 +108,13 @@ def model_one(seq, ref, out, amd, al, comdat, uniq, hidden):
     weak = [d for d in defs if d[1] == "weak"]
     if weak:
         return ("def", weak[0][0])
+    return None
+
+
+def model_one(seq, ref, out, amd, al, comdat, uniq, hidden):
+    r = resolve_defs(seq, ref != "weak", amd, al, comdat, uniq)
+    if r:
+        return r
     if any(k in ("DS", "DW") for k in seq):
         return ("err",) if ref == "hidden" and hidden == "err" else ("dyn",)
     if ref == "weak":
@@ -171,13 +189,18 @@ def build_singles(d):
                 raise RuntimeError("ld -shared failed: " + err)
 
 
-def single_files(seq, pos, ref):
+def single_provider_files(seq):
     files = []
     for i, k in enumerate(seq):
         c = CONT[k]
         files.append(["o%d_%s.o" % (i, k)] if c == "O" else ["l%d.a" % i] if c == "L" else
                      ["--whole-archive", "a%d.a" % i, "--no-whole-archive"] if c == "A" else
                      ["d%d_%s.so" % (i, k)])
+    return files
+
+
+def single_files(seq, pos, ref):
+    files = single_provider_files(seq)
     files.insert(pos, ["ref_%s.o" % ref])
     return [a for f in files for a in f]
 
@@ -251,35 +274,44 @@ def build_pack_sos(d, maxlen):
                 raise RuntimeError("ld -shared failed: " + err)
 
 
-def write_pack(d, sodir, shape, pos, names):
-    """names: [(name, seq, ref)]. Writes the pack's input files into d, returns the file arguments."""
+def write_pack_providers(d, so_path, shape, names):
+    """names: [(name, seq, ...)]. Writes the provider files of a pack into d; returns one list of
+    file arguments per provider position. so_path(i) = the prebuilt shared object of position i."""
     files = []
-    n = len(shape)
     for i, c in enumerate(shape):
         if c == "O":
             with open(os.path.join(d, "p%d.o" % i), "wb") as f:
-                f.write(symfam.provider_object([(nm, seq[i], marker(i, seq[i]))
-                                                for nm, seq, _r in names]))
+                f.write(symfam.provider_object([(x[0], x[1][i], marker(i, x[1][i]))
+                                                for x in names]))
             files.append(["p%d.o" % i])
         elif c == "L":      # one member per name: loading is decided per name
-            mem = [("l%d_%d.o" % (i, j), symfam.provider_object([(nm, "S", marker(i, "AL"))]), [nm])
-                   for j, (nm, _s, _r) in enumerate(names)]
+            mem = [("l%d_%d.o" % (i, j), symfam.provider_object([(x[0], "S", marker(i, "AL"))]),
+                    [x[0]]) for j, x in enumerate(names)]
             with open(os.path.join(d, "p%d.a" % i), "wb") as f:
                 f.write(symfam.ar_bytes(mem))
             files.append(["p%d.a" % i])
         elif c == "A":
-            data = symfam.provider_object([(nm, "S", marker(i, "AW")) for nm, _s, _r in names])
+            data = symfam.provider_object([(x[0], "S", marker(i, "AW")) for x in names])
             symfam.write_archive(os.path.join(d, "p%d.a" % i), [("aw%d.o" % i, data)])
             files.append(["--whole-archive", "p%d.a" % i, "--no-whole-archive"])
         else:
-            files.append([os.path.join(sodir, "so%d_%d.so" % (n, i))])
+            files.append([so_path(i)])
+    return files
+
+
+def write_pack(d, sodir, shape, pos, names):
+    """names: [(name, seq, ref)]. Writes the pack's input files into d, returns the file arguments."""
+    n = len(shape)
+    files = write_pack_providers(d, lambda i: os.path.join(sodir, "so%d_%d.so" % (n, i)), shape,
+                                 names)
     with open(os.path.join(d, "ref.o"), "wb") as f:
         f.write(symfam.reference_object([(nm, r) for nm, _s, r in names]))
     files.insert(pos, ["ref.o"])
     return [a for f in files for a in f]
 
 
-NAME_RE = re.compile(r"(?<![A-Za-z0-9_])x_(?:[A-Z0-9]+_)*[swh](?![A-Za-z0-9_])")
+NAME_RE = re.compile(r"(?<![A-Za-z0-9_])(?:x_(?:[A-Z0-9]+_)*[swh]|y_(?:[A-Z0-9]+_)*[swhg]+)"
+                     r"(?![A-Za-z0-9_])")
 
 
 def error_names(err):
@@ -295,41 +327,36 @@ KCLASS = {"S": "s", "H": "s", "P": "s", "G": "s", "AW": "s", "AL": "l", "W": "w"
           "C4": "c", "C16": "c", "DS": "d", "DW": "d"}
 
 
-def ref_pack_task(item):
-    """Links one pack with the reference linker. A failing link says "error" for the names its
-    messages mention; the others are linked again. Some GNU ld errors abort at the first name
-    (e.g. `unresolvable R_X86_64_64 relocation`): then the names whose sequence has the same
-    class pattern (strong/weak/common/dynamic) as the named one are set aside into a small pack
-    of their own, so that the rest gets its verdict in a few links."""
-    root, sodir, pid, shape, pos, out, amd, cls, names = item
-    d = os.path.join(root, "pk%d" % os.getpid())
-    os.makedirs(d, exist_ok=True)
-    linker = "ld.lld" if "L" in shape else "ld"
+def pack_links(d, linker, flags, names, write, observe):
+    """Links one pack (names: [(name, seq, ...)]) with the reference linker. A failing link says
+    "error" for the names its messages mention; the others are linked again. Some GNU ld errors
+    abort at the first name (e.g. `unresolvable R_X86_64_64 relocation`): then the names whose
+    sequence has the same class pattern (strong/weak/common/dynamic) as the named one are set
+    aside into a small pack of their own, so that the rest gets its verdict in a few links.
+    write(part) -> file arguments; observe(output path, part) -> {name: verdict}."""
     verdict, nlinks = {}, 0
     queue = [(list(names), True)]
     while queue:
         part, generalise = queue.pop(0)
         if nlinks >= 40:
-            for nm, _s, _r in part:
-                verdict[nm] = ("none", "retries exhausted")
+            for x in part:
+                verdict[x[0]] = ("none", "retries exhausted")
             continue
-        files = write_pack(d, sodir, shape, pos, part)
+        files = write(part)
         outp = os.path.join(d, "out")
         try:
             os.unlink(outp)
         except OSError:
             pass
-        rc, err = run_linker(linker, [*link_flags(out, amd, linker), *files, "-o", outp], d)
+        rc, err = run_linker(linker, [*flags, *files, "-o", outp], d)
         nlinks += 1
         if rc == 0:
-            obs = symfam.observe_slots(outp, [nm for nm, _s, _r in part])
-            for nm, seq, ref in part:
-                verdict[nm] = ("ok", normalise(obs[nm], seq, ref))
+            verdict.update(observe(outp, part))
             continue
-        named = error_names(err) & {nm for nm, _s, _r in part}
+        named = error_names(err) & {x[0] for x in part}
         if not named:
-            for nm, _s, _r in part:
-                verdict[nm] = ("none", "linker failed without naming a member: " + err[-120:])
+            for x in part:
+                verdict[x[0]] = ("none", "linker failed without naming a member: " + err[-120:])
             continue
         for nm in named:
             verdict[nm] = ("err",)
@@ -342,6 +369,20 @@ def ref_pack_task(item):
                 queue.append((suspects, False))
         if rest:
             queue.insert(0, (rest, generalise))
+    return verdict, nlinks
+
+
+def ref_pack_task(item):
+    root, sodir, pid, shape, pos, out, amd, cls, names = item
+    d = os.path.join(root, "pk%d" % os.getpid())
+    os.makedirs(d, exist_ok=True)
+    linker = "ld.lld" if "L" in shape else "ld"
+
+    def observe(outp, part):
+        obs = symfam.observe_slots(outp, [nm for nm, _s, _r in part])
+        return {nm: ("ok", normalise(obs[nm], seq, ref)) for nm, seq, ref in part}
+    verdict, nlinks = pack_links(d, linker, link_flags(out, amd, linker), names,
+                                 lambda part: write_pack(d, sodir, shape, pos, part), observe)
     return pid, cls, verdict, nlinks, linker
 
 
@@ -397,6 +438,323 @@ def violation_key(m, exp, got):
     return "%s:%s%s:expect=%s:got=%s" % (out, ref, feats, e, g)
 
 
+# ================================================================================ the multiref axis
+# SEVERAL referencing objects for the same name.  A member is (providers, refs, arrangement, output):
+#   refs         one (kind, live) per referencing object, kind in {strong, weak, hidden undefined};
+#                live = 0: the section holding the reference is referenced by nothing and the link
+#                runs with --gc-sections (all three linkers), so the reference is not in the output;
+#   arrangement  for each referencing object the number of providers that precede it on the
+#                command line (non-decreasing: object j precedes object j+1), i.e. every way of
+#                interleaving the referencing objects with the providers.
+# Each referencing object j holds its own slot `slot_<name>_r<j>` in a section of its own; a main
+# object (first on the line; it never mentions the name) defines _start and keeps the live slots
+# alive through a table in its .data.  The verdict of a member is "link error" or one outcome per
+# slot; every slot is judged separately.  --allow-multiple-definition is off on this axis.
+MR_CODE = {"strong": "s", "weak": "w", "hidden": "h"}
+MR_REP_KINDS = ["S", "W", "C16", "AL", "AW", "DS"]       # one kind per class, for the thinned part
+R_X86_64_PC32 = 2
+
+
+def mr_refcode(refs):
+    return "".join(MR_CODE[k] + ("" if live else "g") for k, live in refs)
+
+
+def mr_refs_text(refs):
+    return "+".join(k + ("" if live else "/gc") for k, live in refs)
+
+
+def mr_pack_name(seq, refs):
+    return "y_" + "".join(k + "_" for k in seq) + mr_refcode(refs)
+
+
+def mr_slot(name, j):
+    return "slot_%s_r%d" % (name, j)
+
+
+def mr_arrangements(n, k):
+    return list(itertools.combinations_with_replacement(range(n + 1), k))
+
+
+def mr_members(thorough):
+    def gen(k, lengths, kinds, gc):
+        for n in lengths:
+            for seq in itertools.product(kinds, repeat=n):
+                for arr in mr_arrangements(n, k):
+                    for rk in itertools.product(REFS, repeat=k):
+                        for out in OUTS:
+                            if out == "exe" and any(CONT[x] == "D" for x in seq):
+                                continue
+                            lives = [(1,) * k]
+                            if gc and out != "shared":
+                                lives = [lv for lv in itertools.product((1, 0), repeat=k) if any(lv)]
+                            for lv in lives:
+                                yield (seq, tuple(zip(rk, lv)), arr, out)
+    yield from gen(2, range(3 if thorough else 2), KINDS, True)
+    if thorough:
+        yield from gen(3, (0, 1), KINDS, True)
+        yield from gen(3, (2,), MR_REP_KINDS, False)
+
+
+# One more open point on this axis: does a non-weak reference in a DISCARDED section make the name
+# non-weak for the references that remain ("any": GNU ld and lld merge the binding of all
+# references of a name), or is each remaining reference judged by its own binding ("live")?
+MR_READINGS = [r + (g,) for r in READINGS for g in ("live", "any")]
+
+
+def mr_model_one(seq, refs, out, al, comdat, uniq, hidden, gcref):
+    """The statement's rule with several references: the name resolves once (a lazily loaded
+    member is a provider when ANY referencing object, discarded section or not, references the
+    name non-weakly: loading precedes garbage collection); "an undefined non-weak reference in an
+    executable is an error, an undefined weak reference resolves to zero" is applied to each
+    reference that is in the output (live)."""
+    def per(f):
+        return ("ok", tuple(f(k) if live else ("gc",) for k, live in refs))
+    r = resolve_defs(seq, any(k != "weak" for k, _l in refs), 0, al, comdat, uniq)
+    if r == ("err",):
+        return r
+    if r:
+        bound = expected_of(seq, r)[1]
+        return per(lambda k: bound)
+    anyhidden = any(k == "hidden" for k, _l in refs)
+    if any(k in ("DS", "DW") for k in seq):
+        if anyhidden and hidden == "err":
+            return ("err",)
+        return per(lambda k: ("dyn",))
+    if any(k != "weak" and (live or gcref == "any") for k, live in refs):
+        if out in ("exe", "pie"):
+            return ("err",)
+        if anyhidden and hidden == "err":
+            return ("err",)
+    return per(lambda k: ("zero",) if k == "weak" else ("undef",))
+
+
+def mr_model(seq, refs, out):
+    return {mr_model_one(seq, refs, out, *r) for r in MR_READINGS}
+
+
+def mr_normalise(obs, seq, refs):
+    """obs: {j: observation of slot j} -> tuple of per-slot outcomes; a discarded slot reads
+    ("gc",) when it is absent from the output and ("kept",) when it is there."""
+    res = []
+    for j, (k, live) in enumerate(refs):
+        if live:
+            res.append(normalise(obs[j], seq, k))
+        else:
+            res.append(("gc",) if tuple(obs[j]) == symfam.SLOT_ABSENT else ("kept",))
+    return tuple(res)
+
+
+def mr_main_object(slots):
+    """_start (`lea table(%rip),%rax; ret`) and a .data table with one word per live slot."""
+    o = ElfObject()
+    t = o.section(".text", flags=SHF_ALLOC | SHF_EXECINSTR, align=16,
+                  data=b"\x48\x8d\x05\0\0\0\0\xc3")
+    o.symbol("_start", section=t, type=STT_FUNC, size=8)
+    d = o.section(".data", flags=SHF_ALLOC | SHF_WRITE, align=8, data=bytes(8 * max(1, len(slots))))
+    o.reloc(t, 3, R_X86_64_PC32, o.section_symbol(d), -4)
+    for i, sname in enumerate(slots):
+        o.reloc(d, 8 * i, symfam.R_X86_64_64, o.symbol(sname), 0)
+    o.note_gnu_stack()
+    return o.to_bytes()
+
+
+def mr_ref_object(j, refs):
+    """Referencing object j. refs: [(name, kind)]; per name a section `.data.slot_<name>_r<j>` of
+    its own holding the slot (R_X86_64_64 against the undefined name)."""
+    o = ElfObject()
+    for n, rk in refs:
+        sec = o.section(".data." + mr_slot(n, j), flags=SHF_ALLOC | SHF_WRITE, align=8,
+                        data=bytes(8))
+        o.symbol(mr_slot(n, j), section=sec, size=8, type=STT_OBJECT)
+        u = o.symbol(n, bind=STB_WEAK if rk == "weak" else STB_GLOBAL,
+                     vis=STV_HIDDEN if rk == "hidden" else STV_DEFAULT)
+        o.reloc(sec, 0, symfam.R_X86_64_64, u, 0)
+    o.note_gnu_stack()
+    return o.to_bytes()
+
+
+def mr_line(prov_files, ref_files, arr):
+    line, j = [], 0
+    for i in range(len(prov_files) + 1):
+        while j < len(arr) and arr[j] == i:
+            line.append(ref_files[j])
+            j += 1
+        if i < len(prov_files):
+            line += prov_files[i]
+    return line
+
+
+def mr_flags(out, linker):
+    fl = ["--gc-sections", *OUTFLAGS[out]]
+    if linker == "ld.lld":
+        fl.append("--error-limit=0")
+    return fl
+
+
+def build_mr_singles(d, maxrefs):
+    os.makedirs(d, exist_ok=True)
+    for k in range(2, maxrefs + 1):
+        for lv in itertools.product((1, 0), repeat=k):
+            with open(os.path.join(d, "mm_%s.o" % "".join(map(str, lv))), "wb") as f:
+                f.write(mr_main_object([mr_slot("x", j) for j in range(k) if lv[j]]))
+    for j in range(maxrefs):
+        for r in REFS:
+            with open(os.path.join(d, "mr%d_%s.o" % (j, r)), "wb") as f:
+                f.write(mr_ref_object(j, [("x", r)]))
+
+
+def mr_single_files(m):
+    seq, refs, arr, out = m
+    prov = single_provider_files(seq)
+    return ["mm_%s.o" % "".join(str(l) for _k, l in refs),
+            *mr_line(prov, ["mr%d_%s.o" % (j, k) for j, (k, _l) in enumerate(refs)], arr)]
+
+
+def mr_observe(outp, name, seq, refs):
+    obs = symfam.observe_named_slots(outp, [(j, mr_slot(name, j), name) for j in range(len(refs))])
+    return ("ok", mr_normalise(obs, seq, refs))
+
+
+def mr_single_reference(sdir, outp, m):
+    seq, refs, arr, out = m
+    linker = ref_linker(seq)
+    try:
+        os.unlink(outp)
+    except OSError:
+        pass
+    rc, err = run_linker(linker, [*mr_flags(out, linker), *mr_single_files(m), "-o", outp], sdir)
+    if rc < 0:
+        return ("none", "reference linker killed by signal %d" % -rc), err
+    if rc != 0:
+        return ("err",), err
+    return mr_observe(outp, "x", seq, refs), err
+
+
+def mr_single_wild(sdir, outp, m):
+    seq, refs, arr, out = m
+    try:
+        os.unlink(outp)
+    except OSError:
+        pass
+    rc, msg = symfam.server_link([*mr_flags(out, "wild"), *mr_single_files(m), "-o", outp], cwd=sdir)
+    if rc == 0:
+        try:
+            return mr_observe(outp, "x", seq, refs), msg
+        except Exception as ex:      # an unreadable output is an observation, not a harness error
+            return ("ok", tuple(("odd", "unreadable output: %s" % ex) for _ in refs)), msg
+    if rc == 1:
+        return ("err",), msg
+    return ("crash", str(rc)), msg
+
+
+def build_mr_pack_sos(d, by_so):
+    """by_so: {(sequence length, position): [(pack name, DS / DW)]}: one shared object each."""
+    os.makedirs(d, exist_ok=True)
+    for (n, i), lst in sorted(by_so.items()):
+        defs = [(nm, "S" if k == "DS" else "W", marker(i, k)) for nm, k in sorted(set(lst))]
+        with open(os.path.join(d, "mso%d_%d.o" % (n, i)), "wb") as f:
+            f.write(symfam.provider_object(defs))
+        rc, err = symfam.run_tool(["ld", "-shared", "-o", "mso%d_%d.so" % (n, i),
+                                   "mso%d_%d.o" % (n, i)], d)
+        if rc:
+            raise RuntimeError("ld -shared failed: " + err)
+
+
+def mr_write_pack(d, sodir, shape, arr, names):
+    """names: [(name, seq, refs)]; all of one container shape, arrangement and number of refs."""
+    n, k = len(shape), len(arr)
+    prov = write_pack_providers(d, lambda i: os.path.join(sodir, "mso%d_%d.so" % (n, i)), shape,
+                                names)
+    with open(os.path.join(d, "m.o"), "wb") as f:
+        f.write(mr_main_object([mr_slot(nm, j) for nm, _s, refs in names for j in range(k)
+                                if refs[j][1]]))
+    for j in range(k):
+        with open(os.path.join(d, "r%d.o" % j), "wb") as f:
+            f.write(mr_ref_object(j, [(nm, refs[j][0]) for nm, _s, refs in names]))
+    return ["m.o", *mr_line(prov, ["r%d.o" % j for j in range(k)], arr)]
+
+
+def mr_pack_task(item):
+    root, sodir, pid, shape, arr, out, cls, names = item
+    d = os.path.join(root, "mpk%d" % os.getpid())
+    os.makedirs(d, exist_ok=True)
+    linker = "ld.lld" if "L" in shape else "ld"
+
+    def observe(outp, part):
+        k = len(arr)
+        obs = symfam.observe_named_slots(outp, [((nm, j), mr_slot(nm, j), nm)
+                                                for nm, _s, _r in part for j in range(k)])
+        return {nm: ("ok", mr_normalise({j: obs[(nm, j)] for j in range(k)}, seq, refs))
+                for nm, seq, refs in part}
+    verdict, nlinks = pack_links(d, linker, mr_flags(out, linker), names,
+                                 lambda part: mr_write_pack(d, sodir, shape, arr, part), observe)
+    return pid, verdict, nlinks, linker
+
+
+def mr_single_ref_task(item):
+    sdir, root, batch = item
+    outp = os.path.join(root, "msr%d.out" % os.getpid())
+    return [(mid, mr_single_reference(sdir, outp, m)[0]) for mid, m in batch]
+
+
+def mr_wild_task(item):
+    sdir, root, batch = item
+    outp = os.path.join(root, "mw%d.out" % os.getpid())
+    res = []
+    for mid, m, exp in batch:
+        got, msg = mr_single_wild(sdir, outp, m)
+        res.append((mid, got, "" if got == exp else msg[-300:]))
+    kills, symfam.EXTERNAL_KILLS[0] = symfam.EXTERNAL_KILLS[0], 0
+    return res, kills
+
+
+def mr_cls_name(v):
+    if v[0] != "ok":
+        return cls_name(v)
+    return "+".join(s[0] if s[0] in ("gc", "kept") else cls_name(("ok", s)) for s in v[1])
+
+
+def mr_key_class(v):
+    if v[0] != "ok":
+        return key_class(v)
+    return "+".join(s[0] if s[0] in ("gc", "kept") else key_class(("ok", s)) for s in v[1])
+
+
+def mr_key(m, exp, got, j=None):
+    """multiref:<output>:<kind[/gc]>+...[:lazy][:so]:[slot<j>:]expect=<class>:got=<class>.
+    j = None: the link as a whole (error / crash on one side), classes of all slots joined by +;
+    else the slot of referencing object j, classes as in violation_key."""
+    seq, refs, arr, out = m
+    feats = (":lazy" if "AL" in seq else "") + (":so" if any(CONT[k] == "D" for k in seq) else "")
+    head = "multiref:%s:%s%s" % (out, mr_refs_text(refs), feats)
+    if j is None:
+        return "%s:expect=%s:got=%s" % (head, mr_key_class(exp), mr_key_class(got))
+    ev, gv = ("ok", exp[1][j]), ("ok", got[1][j])
+    e, g = key_class(ev), key_class(gv)
+    if e == g == "def":
+        e, g = cls_name(ev), cls_name(gv)
+        if e.split("#")[0] != g.split("#")[0]:
+            e, g = e.split("#")[0], g.split("#")[0]
+        e, g = "def(%s)" % e, "def(%s)" % g
+    return "%s:slot%d:expect=%s:got=%s" % (head, j, e, g)
+
+
+def mr_member_json(m):
+    seq, refs, arr, out = m
+    return {"providers": list(seq), "refs": [[k, bool(l)] for k, l in refs],
+            "providers_before_each_ref": list(arr), "output": out}
+
+
+def mr_command_line(m, linker="wild"):
+    return " ".join([linker, *mr_flags(m[3], linker), *mr_single_files(m), "-o out"])
+
+
+def mr_what(m):
+    seq, refs, arr, out = m
+    return "providers=%s refs=%s (providers before each: %s) out=%s" % (
+        ",".join(seq) or "-", mr_refs_text(refs), ",".join(map(str, arr)), out)
+
+
 def member_json(m):
     seq, pos, ref, out, amd = m
     return {"providers": list(seq), "ref_position": pos, "ref": ref, "output": out,
@@ -408,9 +766,35 @@ def command_line(m, linker="wild"):
     return " ".join([linker, *link_flags(out, amd, linker), *single_files(seq, pos, ref), "-o out"])
 
 
+def mr_replay(rp):
+    mj = rp["member"]
+    m = (tuple(mj["providers"]), tuple((k, int(l)) for k, l in mj["refs"]),
+         tuple(mj["providers_before_each_ref"]), mj["output"])
+    with vlib.scratch("c02r") as base:
+        sdir = os.path.join(base, "singles")
+        build_singles(sdir)
+        build_mr_singles(sdir, 3)
+        mod = mr_model(m[0], m[1], m[3])
+        refv, referr = mr_single_reference(sdir, os.path.join(base, "ref.out"), m)
+        got, msg = mr_single_wild(sdir, os.path.join(base, "wild.out"), m)
+    print("member   :", mj)
+    print("command  :", mr_command_line(m))
+    print("model    :", sorted(mod))
+    print("reference:", ref_linker(m[0]), refv, referr.strip()[-200:])
+    print("wild     :", got, msg.strip()[-200:])
+    if len(mod) == 1 and refv in mod and got != refv and not (
+            got[0] == "ok" and ("kept",) in got[1]):
+        print("REPRODUCED: expected %s, wild %s" % (mr_cls_name(refv), mr_cls_name(got)))
+        sys.exit(vlib.EXIT_VIOLATION)
+    print("not reproduced")
+    sys.exit(vlib.EXIT_OK)
+
+
 def replay(chk, path):
     with open(path) as f:
         rp = json.load(f)["replay"]
+    if rp.get("family") == "multiref":
+        mr_replay(rp)
     mj = rp["member"]
     m = (tuple(mj["providers"]), mj["ref_position"], mj["ref"], mj["output"],
          int(mj["allow_multiple_definition"]))
@@ -434,6 +818,177 @@ def replay(chk, path):
 
 def batches(items, n):
     return [items[i:i + n] for i in range(0, len(items), n)]
+
+
+def multiref_phase(chk, base, sdir):
+    """The whole multiref axis: model, reference packs, unpacked validation, wild. Records
+    violations on chk; returns the coverage dictionary of the axis."""
+    t0 = time.time()
+    allm = list(mr_members(chk.thorough))
+    if chk.seed:
+        random.Random(chk.seed + 1).shuffle(allm)
+    expect, unsure, mcache = {}, 0, {}
+    for mid, (seq, refs, arr, out) in enumerate(allm):
+        key = (seq, refs, out)
+        if key not in mcache:
+            mcache[key] = mr_model(seq, refs, out)
+        if len(mcache[key]) == 1:
+            expect[mid] = next(iter(mcache[key]))
+        else:
+            unsure += 1
+    build_mr_singles(sdir, 3 if chk.thorough else 2)
+    sodir = os.path.join(base, "mso")
+    by_so = {}
+    for mid in expect:
+        seq, refs, arr, out = allm[mid]
+        for i, k in enumerate(seq):
+            if CONT[k] == "D":
+                by_so.setdefault((len(seq), i), []).append((mr_pack_name(seq, refs), k))
+    build_mr_pack_sos(sodir, by_so)
+    # ---- reference linker on packs: one pack per (container shape, arrangement, output, ok/err)
+    packs = {}
+    for mid, exp in expect.items():
+        seq, refs, arr, out = allm[mid]
+        shape = tuple(CONT[k] for k in seq)
+        packs.setdefault((shape, arr, len(refs), out, "err" if exp == ("err",) else "ok"),
+                         []).append((mid, seq, refs))
+    items, pack_members = [], {}
+    for pid, ((shape, arr, _k, out, cls), lst) in enumerate(sorted(packs.items())):
+        pack_members[pid] = {mr_pack_name(seq, refs): mid for mid, seq, refs in lst}
+        items.append((base, sodir, pid, shape, arr, out, cls,
+                      [(mr_pack_name(seq, refs), seq, refs) for _mid, seq, refs in lst]))
+    items.sort(key=lambda it: -len(it[7]))
+    refverdict, ref_links = {}, {"ld": 0, "ld.lld": 0}
+    for pid, verdict, nlinks, linker in vlib.pmap(mr_pack_task, items, chunksize=1):
+        ref_links[linker] += nlinks
+        for nm, v in verdict.items():
+            refverdict[pack_members[pid][nm]] = v
+    t_ref = time.time() - t0
+    # ---- the packing validated unpacked on a sub-family
+    def in_sub(m):
+        seq, refs, arr, out = m
+        if not seq:
+            return True
+        if len(seq) > 1:
+            return False
+        if not chk.thorough:                     # one provider: the refs straddle it
+            return arr == (0, 1)
+        return len(refs) == 2 or all(l for _k, l in refs)
+    sub = [(mid, allm[mid]) for mid in expect if in_sub(allm[mid])]
+    pack_checked = pack_mismatch = 0
+    mismatch_samples = []
+    for res in vlib.pmap(mr_single_ref_task, [(sdir, base, b) for b in batches(sub, 24)],
+                         chunksize=1):
+        for mid, v in res:
+            pack_checked += 1
+            ref_links[ref_linker(allm[mid][0])] += 1
+            if v != refverdict.get(mid):
+                pack_mismatch += 1
+                if len(mismatch_samples) < 5:
+                    mismatch_samples.append({"member": mr_member_json(allm[mid]),
+                                             "packed": refverdict.get(mid), "unpacked": v})
+                refverdict[mid] = ("none", "packed and unpacked reference verdicts differ")
+    t_unpacked = time.time() - t0 - t_ref
+    # ---- agreement
+    agreed, disagree, disagree_samples, noverdict, noverdict_reasons = [], {}, {}, 0, {}
+    for mid, exp in expect.items():
+        v = refverdict.get(mid, ("none", "missing"))
+        if v[0] == "ok" and any(s == ("kept",) for s in v[1]):
+            v = ("none", "the reference linker kept an unreferenced section")
+        if v[0] == "none":
+            noverdict += 1
+            noverdict_reasons[v[1][:60]] = noverdict_reasons.get(v[1][:60], 0) + 1
+        elif v == exp:
+            agreed.append(mid)
+        else:
+            cat = "model=%s ref=%s" % (mr_key_class(exp), mr_key_class(v))
+            disagree[cat] = disagree.get(cat, 0) + 1
+            disagree_samples.setdefault(cat, {"member": mr_member_json(allm[mid]),
+                                              "model": mr_cls_name(exp), "reference": mr_cls_name(v),
+                                              "linker": ref_linker(allm[mid][0])})
+    # ---- wild, every agreed member on its own; every slot judged separately
+    work = [(mid, allm[mid], expect[mid]) for mid in agreed]
+    outcomes, n_eval, nontrivial, crashes_as_error, wild_kept, slots_judged = {}, 0, 0, 0, 0, 0
+    cap = 300 if chk.thorough else 30
+    capped, tw, ext_kills = None, time.time(), 0
+    for res, kills in vlib.pmap_unordered(mr_wild_task,
+                                          [(sdir, base, b) for b in batches(work, 64)]):
+        ext_kills += kills
+        for mid, got, msg in res:
+            m, exp = allm[mid], expect[mid]
+            if got[0] == "ok" and any(s == ("kept",) for s in got[1]):
+                wild_kept += 1       # section garbage collection is not this property's matter
+                continue
+            n_eval += 1
+            oc = mr_key_class(exp)
+            outcomes[oc] = outcomes.get(oc, 0) + 1
+            if len(set(m[1])) >= 2:
+                nontrivial += 1
+            if exp[0] == "ok":
+                slots_judged += sum(1 for _k, l in m[1] if l)
+            if got == exp:
+                continue
+            if exp == ("err",) and got[0] == "crash":
+                crashes_as_error += 1
+                continue
+            rp = {"family": "multiref", "member": mr_member_json(m), "expected": mr_cls_name(exp),
+                  "wild": mr_cls_name(got), "command": mr_command_line(m),
+                  "reference_command": mr_command_line(m, ref_linker(m[0]))}
+            if exp[0] != "ok" or got[0] != "ok":
+                chk.violation(mr_key(m, exp, got),
+                              "%s: model and %s say %s, wild: %s %s"
+                              % (mr_what(m), ref_linker(m[0]), mr_cls_name(exp), mr_cls_name(got),
+                                 msg.replace("\n", " ")[:200]), rp)
+                continue
+            for j in range(len(m[1])):
+                if got[1][j] != exp[1][j]:
+                    chk.violation(mr_key(m, exp, got, j),
+                                  "%s: slot of referencing object %d: model and %s say %s, wild: %s "
+                                  "(all slots: expected %s, wild %s)"
+                                  % (mr_what(m), j, ref_linker(m[0]),
+                                     cls_name(("ok", exp[1][j])), cls_name(("ok", got[1][j])),
+                                     mr_cls_name(exp), mr_cls_name(got)), dict(rp, slot=j))
+        if time.time() - tw > cap:
+            capped = "time_cap=%ds after %d of %d agreed members" % (cap, n_eval, len(work))
+            break
+    t_wild = time.time() - t0 - t_ref - t_unpacked
+    by_shape = {}
+    for m in allm:
+        k = "%d refs x %d providers" % (len(m[1]), len(m[0]))
+        by_shape[k] = by_shape.get(k, 0) + 1
+    samples = [{"member": mr_member_json(allm[mid]), "expected": mr_cls_name(expect[mid]),
+                "command": mr_command_line(allm[mid])}
+               for mid in agreed[:: max(1, len(agreed) // 6)][:6]]
+    if chk.thorough:
+        rule = ("2 referencing objects x all provider sequences of length 0..2 over 12 kinds; 3 "
+                "referencing objects x all provider sequences of length 0..1; 3 referencing objects "
+                "x 2 providers THINNED to one provider kind per class (%s) and to live references"
+                % ",".join(MR_REP_KINDS))
+    else:
+        rule = ("2 referencing objects x all provider sequences of length 0..1 over 12 kinds (two "
+                "providers and a third referencing object: thorough tier only)")
+    rule += ("; x every interleaving of the referencing objects with the providers x each object's "
+             "reference kind {strong, weak, hidden} x outputs {exe, -pie, -shared} (exe without "
+             "shared-object providers) x for exe / -pie each object's referencing section live or "
+             "discarded by --gc-sections (at least one live); --allow-multiple-definition off")
+    return {
+        "evaluations": n_eval, "distinct_nontrivial": nontrivial, "rule": rule,
+        "members_total": len(allm), "members_by_shape": by_shape, "slots_judged": slots_judged,
+        "model_unsure_excluded": unsure,
+        "model_vs_reference_disagree_excluded": sum(disagree.values()),
+        "disagreements_by_class": dict(sorted(disagree.items(), key=lambda kv: -kv[1])),
+        "disagreement_samples": list(disagree_samples.values())[:40],
+        "reference_no_verdict_excluded": noverdict, "no_verdict_reasons": noverdict_reasons,
+        "agreed_members": len(agreed), "wild_kept_an_unreferenced_section_not_judged": wild_kept,
+        "expected_outcome_histogram": outcomes, "reference_packs": len(items),
+        "reference_links": ref_links, "pack_validation_unpacked_members": pack_checked,
+        "pack_validation_mismatches": pack_mismatch, "pack_mismatch_samples": mismatch_samples,
+        "wild_crash_where_error_expected": crashes_as_error,
+        "links_repeated_after_external_kill_of_the_server": ext_kills,
+        "phase_wall_s": {"reference_packs": round(t_ref, 1), "unpacked": round(t_unpacked, 1),
+                         "wild": round(t_wild, 1)},
+        "samples": samples, "exhaustive": capped is None, "capped": capped,
+    }
 
 
 def main():
@@ -552,16 +1107,22 @@ def main():
                 capped = "time_cap=%ds after %d of %d agreed members" % (cap, n_eval, len(work))
                 break      # leaving the generator terminates the pool
         t_wild = time.time() - t0 - t_ref - t_unpacked
+        # ---- the multiref axis (several referencing objects of the same name) --------------------
+        mr = multiref_phase(chk, base, sdir)
     samples = [{"member": member_json(allm[mid]), "expected": cls_name(expect[mid]),
                 "command": command_line(allm[mid])} for mid in agreed[:: max(1, len(agreed) // 6)][:6]]
     chk.coverage = {
-        "evaluations": n_eval, "distinct_nontrivial": nontrivial,
-        "rule": "all provider sequences of length 0..%d over 12 kinds x every reference position x "
+        "evaluations": n_eval + mr["evaluations"],
+        "distinct_nontrivial": nontrivial + mr["distinct_nontrivial"],
+        "single_reference_evaluations": n_eval, "multiref_evaluations": mr["evaluations"],
+        "multiref": mr,
+        "rule": "(A) single referencing object: all provider sequences of length 0..%d over 12 kinds x every reference position x "
                 "3 reference kinds x 3 outputs (exe without shared-object providers) x "
                 "--allow-multiple-definition off/on; evaluations = members on which model and "
                 "reference linker agree, each linked by wild on its own; non-trivial = such members "
                 "with >= 2 providers (a choice or a conflict exists); members are pairwise distinct "
-                "by construction" % maxlen,
+                "by construction; (B) multiref axis: %s; non-trivial = members whose referencing "
+                "objects differ in kind or liveness" % (maxlen, mr["rule"]),
         "members_total": len(allm), "model_unsure_excluded": unsure,
         "model_vs_reference_disagree_excluded": sum(disagree.values()),
         "disagreements_by_class": dict(sorted(disagree.items(), key=lambda kv: -kv[1])),
@@ -574,7 +1135,9 @@ def main():
         "links_repeated_after_external_kill_of_the_server": ext_kills,
         "phase_wall_s": {"reference_packs": round(t_ref, 1), "unpacked": round(t_unpacked, 1),
                          "wild": round(t_wild, 1)},
-        "samples": samples, "exhaustive": capped is None, "capped": capped,
+        "samples": samples + mr["samples"][:3],
+        "exhaustive": capped is None and mr["capped"] is None,
+        "capped": capped or mr["capped"],
         "explanation": "reference = GNU ld 2.40, or ld.lld 14 for members containing a lazily "
                        "loaded archive; wild links run unpacked through the in-process server",
     }
@@ -588,7 +1151,19 @@ def main():
         "(weak) / left to the loader (-shared)",
         "the model deliberately has no opinion where the statement is silent (GNU-unique rank, "
         "strong vs COMDAT-strong, lazy member behind another definition, hidden reference to a "
-        "shared definition): those members are excluded",
+        "shared definition; on the multiref axis also: whether a non-weak reference in a discarded "
+        "section makes the name non-weak for the remaining weak references): those members are "
+        "excluded",
+        "multiref axis: a reference whose section nothing references is not in the output under "
+        "--gc-sections (checked on every reference-linker output: the slot symbol must be gone; "
+        "else no verdict); when wild keeps such a section the member is not judged here (%d "
+        "members): the precision of garbage collection is not this property's matter"
+        % mr["wild_kept_an_unreferenced_section_not_judged"],
+        "multiref packs validated unpacked on: all members without provider, and of the members "
+        "with one provider %s: %d members, %d mismatches" % (
+            "those with 2 referencing objects and those with 3 live ones" if chk.thorough else
+            "those whose two referencing objects straddle it", mr["pack_validation_unpacked_members"],
+            mr["pack_validation_mismatches"]),
     ]
     chk.finish()
 
